@@ -54,7 +54,7 @@ class BaseSPCConfig(BaseConceptDriftStreamingConfig):
         :type value: float
         :raises ValueError: Value error exception
         """
-        if value <= 0.0:
+        if not value > 0.0:
             raise ValueError("drift level must be greater than 0.0.")
         if value <= self.warning_level:
             raise ValueError("drift level must be greater than warning level.")
@@ -77,7 +77,7 @@ class BaseSPCConfig(BaseConceptDriftStreamingConfig):
         :type value: float
         :raises ValueError: Value error exception
         """
-        if value <= 0.0:
+        if not value > 0.0:
             raise ValueError("warning level must be greater than 0.0.")
         self._warning_level = value
 
